@@ -2,6 +2,7 @@ package harness
 
 import (
 	"fmt"
+	"runtime"
 	"sync"
 	"testing"
 	"time"
@@ -102,10 +103,22 @@ func TestC09Parallel(t *testing.T) {
 			}()
 		}
 		var wwg sync.WaitGroup
+		crash := ""
 		for w := 0; w < workers; w++ {
 			wwg.Add(1)
 			go func(w int) {
 				defer wwg.Done()
+				defer func() {
+					if p := recover(); p != nil {
+						buf := make([]byte, 1<<12)
+						buf = buf[:runtime.Stack(buf, false)]
+						rmu.Lock()
+						if crash == "" {
+							crash = fmt.Sprintf("a merging transaction panicked: %v\n%s", p, trimStack(string(buf)))
+						}
+						rmu.Unlock()
+					}
+				}()
 				for _, o := range progs[w] {
 					if o.Col == 0 {
 						// the time-to-live accessor: Extend merges a duration into the deadline
@@ -145,9 +158,21 @@ func TestC09Parallel(t *testing.T) {
 				}
 			}(w)
 		}
-		wwg.Wait()
+		finished := make(chan struct{})
+		go func() { wwg.Wait(); close(finished) }()
+		select {
+		case <-finished:
+		case <-time.After(60 * time.Second):
+			rmu.Lock()
+			msg := crash
+			rmu.Unlock()
+			t.Fatalf("C09 violated (free-parallel run): the merging workers did not finish within 60 s (deadlock, or a worker died holding a latch) %s", msg)
+		}
 		close(stop)
 		wg.Wait()
+		if crash != "" {
+			t.Fatalf("C09 violated (free-parallel run): %s", crash)
+		}
 		if rerr != "" {
 			t.Fatalf("C09 violated (free-parallel run): %s", rerr)
 		}
